@@ -29,7 +29,7 @@ META = {
             "numpoly function is exercised with a menu of values chosen by the kind of its default (bool flipped, None -> 16 "
             "values, int, float, str menus), and display runs under 7 numpy print-option environments. distinct = (callable, "
             "pattern, operand form).",
-    "bounds": {"operand_forms": 21, "patterns": 14, "keyword_menu_values": 16, "print_environments": 7},
+    "bounds": {"operand_forms": 24, "patterns": 14, "keyword_menu_values": 16, "print_environments": 7},
     "assumptions": ["an argument is observed through shape, strides, dtype, names, keys and raw bytes (base-class view)"],
 }
 
@@ -86,6 +86,13 @@ def operand_forms():
     def monomials():
         return build_checked(spec(("q0", "q1"), (), [((2, 1), 3.0)], "f8")), build_checked(spec(("q0", "q1"), (), [((2, 1), -1.5)], "f8"))
     forms.append(("single monomials 0-d float", monomials))
+
+    def monomial_arrays(dtype, exps):
+        vals = ([1, 2, 3], [3, 0, -1]) if dtype == "i8" else ([0.5, 2.0, -3.0], [1.5, 0.0, -1.0])
+        return lambda: (build_checked(spec(("q0", "q1"), (3,), [(exps, vals[0])], dtype)), build_checked(spec(("q0", "q1"), (3,), [(exps, vals[1])], dtype)))
+    forms.append(("arrays whose elements all consist of the one term q0**2*q1, int", monomial_arrays("i8", (2, 1))))
+    forms.append(("arrays of one term q0, float", monomial_arrays("f8", (1, 0))))
+    forms.append(("constant arrays (one constant term), int", monomial_arrays("i8", (0, 0))))
 
     def same():
         a = build_checked(dense((3,), "i8", 0))
